@@ -342,6 +342,7 @@ Proof.
     intros s0 r I0 G [C S]. destruct (process_cons a s0 r I0 G) as [-> ->]. auto.
   - apply andb_prop in Wf. destruct Wf as [W1 _].
     destruct (nst_balance s staker asset x) as [s'|] eqn:E; simpl; [|auto]. exact (nst_balance_cons a s staker asset x s' W1 E).
+  - auto.
 Qed.
 
 (* induction over histories *)
